@@ -6,17 +6,9 @@ from common import freephil, enc, dec, obj_j, call_j, err_j
 
 LEVEL = "proof"
 MODULE = "Phil.Props.C14"
-LEVEL_TEXT = ("Lean theorems about the argument-interpreter model: an iff-characterisation of each score class of "
-              "get_path_score in terms of infix/prefix/suffix and the home scope, exact path wins under distinct target paths, "
-              "the chosen path contains the name and no path has a higher class, ambiguity lists all best matches, unknown iff "
-              "no path contains the name. The model (scores, selection, expert tie-break, re-rendering, re-parse) is tied to "
-              "/repo by a correspondence run of process(arg) on small-alphabet masters; the oracle states the ranking of the "
-              "property independently (kind, inside-home, whole-component) and checks selection, refusal lists, value transport "
-              "and process_and_fetch = fetch of individually interpreted arguments.")
-LEVEL_NOTE = ("Tie-break arithmetic score - expert/100 is modelled exactly as 100*score - expert (expert levels 0..9 generated). "
-              "Known finding D12: a master with a further occurrence of a .multiple definition has duplicate target paths and "
-              "refuses the exact path as ambiguous; the theorems carry Nodup targets.")
-TECHNIQUE = "Lean 4 theorems on the score/selection model + differential correspondence + independent ranking oracle"
+LEVEL_TEXT = 'Lean theorems about the argument-interpreter model: an iff-characterisation of each score class in terms of infix/prefix/suffix and the home scope (score_classes), exact path wins (exact_wins_master), the chosen path contains the name and no path has a higher class (choose_sound), ambiguity lists all best matches, unknown iff no path contains the name, the expert tie-break characterised completely (chosen_warned_iff); value transfer: process_arg_single / _as_from_file / _many, fetch_of_args_is_fetch_of_list. Match classes are tied to the source constants by regenerated tables. Tied to /repo by a correspondence run of process(arg) on small-alphabet masters with and without home scope; the oracle states the ranking of the property independently and checks selection, refusal lists, value transport and the list clause.'
+LEVEL_NOTE = 'Tie-break arithmetic score - expert/100 is modelled exactly as 100*score - expert (expert levels 0..9 generated).'
+TECHNIQUE = 'Lean 4 theorems on the score/selection model and value transfer + differential correspondence + independent ranking oracle'
 RULE = ("masters from path sets over the component alphabet {a,b,ab,ba} (depth <= 3, so substring/suffix collisions abound), "
         "expert levels on scopes/definitions, x home scopes x argument names that are full paths / suffixes / substrings / "
         "non-substrings x value texts with quotes, spaces, '=' and ';'; non-trivial = name matches at least two paths; "
